@@ -50,7 +50,7 @@ def _subsets():
 
 
 def _shapes(tier):
-    return ((3, 4, 3), (3, 3, 2)) if tier == "quick" else ((4, 4, 3), (3, 3, 3))
+    return ((3, 4, 3), (3, 2, 2)) if tier == "quick" else ((4, 4, 3), (3, 3, 3))
 
 
 def cases(tier, seed):
@@ -61,13 +61,13 @@ def cases(tier, seed):
     out = []
     nb_l = prod(n * (n + 1) // 2 for n in shape_l)
     nb_q = prod(n * (n + 1) // 2 for n in shape_q)
-    chunk_l = 45
+    chunk_l = 45 if tier == "thorough" else 60
     chunk_q = 6
     for g in grids:
         for exact in (False, True):
             for c0 in range(0, nb_l, chunk_l):
-                out.append(dict(part="lin", shape=shape_l, grid=g, exact=exact, boxes=[c0, min(nb_l, c0 + chunk_l)], conf=(c0 == 0), seed=seed))
-            out.append(dict(part="lin-subsets", shape=shape_l, grid=g, exact=exact, seed=seed))
+                out.append(dict(part="lin", shape=shape_l, grid=g, exact=exact, boxes=[c0, min(nb_l, c0 + chunk_l)], conf=(c0 == 0), tier=tier, seed=seed))
+            out.append(dict(part="lin-subsets", shape=shape_l, grid=g, exact=exact, tier=tier, seed=seed))
     mats = [("iso", None), ("diag", "diag"), ("full", "iso")] if tier == "quick" else [("iso", None), ("diag", "diag"), ("full", "iso"), ("full", "full"), ("diag", "iso")]
     for gi, g in enumerate(grids):
         for mi, (eps, mu) in enumerate(mats):
@@ -133,10 +133,16 @@ def _run_lin(case):
     shape = tuple(case["shape"])
     sc, info = _scene(case, steps=3)
     boxes = DS.all_boxes(shape)
+    quick = case.get("tier", "thorough") == "quick"
     if case["part"] == "lin":
-        todo = [(b, cs) for b in boxes[case["boxes"][0] : case["boxes"][1]] for cs in SUBSETS3]
+        if quick:  # every box: the full component set (field pair) and one rotating proper subset (phasor triple)
+            todo = [(b, cs) for k, b in enumerate(boxes[case["boxes"][0] : case["boxes"][1]]) for cs in (SUBSETS3[0], SUBSETS3[1 + (k + case["boxes"][0]) % 2])]
+        else:
+            todo = [(b, cs) for b in boxes[case["boxes"][0] : case["boxes"][1]] for cs in SUBSETS3]
     else:
         pick = [((0, 1), (1, 2), (2, 3)), tuple((0, shape[a]) for a in range(3)), ((1, 3), (0, 3), (0, 2))]
+        if quick:
+            pick = pick[1:]
         todo = [(b, cs) for b in pick for cs in _subsets()]
     ex = bool(case["exact"])
     dets = []
@@ -144,15 +150,26 @@ def _run_lin(case):
     wcs = tuple(fdtdx.WaveCharacter(**w) for w in WAVES)
     for i, (b, cs) in enumerate(todo):
         common = dict(exact_interpolation=ex, components=cs)
+        if case["part"] == "lin":
+            field_only = quick and len(cs) == 6
+            phasor_only = quick and len(cs) != 6
+        else:  # quick subsets case: field pair on the first box, phasor triple on the second
+            field_only = quick and i < 63
+            phasor_only = quick and i >= 63
+        pulse = bool((i // 2 if quick else i) % 2)
         group = {
             "fs": fdtdx.FieldDetector(name=f"fs{i}", dtype=jnp.float64, plot=False, **common),
             "fr": fdtdx.FieldDetector(name=f"fr{i}", dtype=jnp.float64, plot=False, reduce_volume=True, **common),
             "ps": fdtdx.PhasorDetector(name=f"ps{i}", dtype=jnp.complex128, wave_characters=wcs, **common),
-            "pr": fdtdx.PhasorDetector(name=f"pr{i}", dtype=jnp.complex128, wave_characters=wcs, reduce_volume=True, scaling_mode="pulse" if i % 2 else "continuous", **common),
+            "pr": fdtdx.PhasorDetector(name=f"pr{i}", dtype=jnp.complex128, wave_characters=wcs, reduce_volume=True, scaling_mode="pulse" if pulse else "continuous", **common),
             "pi": fdtdx.PhasorDetector(name=f"pi{i}", dtype=jnp.complex128, wave_characters=wcs, inverse=True, **common),
         }
-        if i % 2:
+        if pulse:
             group["ps2"] = fdtdx.PhasorDetector(name=f"pq{i}", dtype=jnp.complex128, wave_characters=wcs, scaling_mode="pulse", **common)
+        if field_only:
+            group = {k: v for k, v in group.items() if k in ("fs", "fr")}
+        if phasor_only:
+            group = {k: v for k, v in group.items() if k not in ("fs", "fr")}
         placed = {k: DS.place(d, b, sc.config) for k, d in group.items()}
         dets += list(placed.values())
         meta.append((b, cs, placed))
@@ -193,21 +210,26 @@ def _run_lin(case):
         wn = w / w.sum()
         ncell = int(np.prod(w.shape))
         desc = dict(box=b, components=cs, grid=case["grid"], exact=ex)
-        # Field: reduced == volume-weighted mean of spatial, as matrices (rows = basis states)
-        S = fw[placed["fs"].name]  # (B, k, bx,by,bz)
-        R = fw[placed["fr"].name]  # (B, k)
-        exp = np.einsum("bkxyz,xyz->bk", S, wn)
-        r = _rel(R, exp)
-        worst = max(worst, r)
-        if r > TOL:
-            fail(f"field:reduced!=volume-weighted-mean:{tag}", dict(desc, rel=r, cells=ncell))
-        if np.max(np.abs(S[0])) != 0 or np.max(np.abs(R[0])) != 0:
-            fail("field:nonzero-record-of-zero-state", desc)
-        if ncell > 1 and np.max(np.abs(S)) > 0:
+        if "fs" in placed:
+            # Field: reduced == volume-weighted mean of spatial, as matrices (rows = basis states)
+            S = fw[placed["fs"].name]  # (B, k, bx,by,bz)
+            R = fw[placed["fr"].name]  # (B, k)
+            exp = np.einsum("bkxyz,xyz->bk", S, wn)
+            r = _rel(R, exp)
+            worst = max(worst, r)
+            if r > TOL:
+                fail(f"field:reduced!=volume-weighted-mean:{tag}", dict(desc, rel=r, cells=ncell))
+            if np.max(np.abs(S[0])) != 0 or np.max(np.abs(R[0])) != 0:
+                fail("field:nonzero-record-of-zero-state", desc)
+            if ncell > 1 and np.max(np.abs(S)) > 0:
+                nontriv += 1
+            # the inverse call must not touch forward detectors and vice versa
+            if not np.array_equal(bw[placed["fs"].name], np.zeros_like(S)):
+                fail("field:forward-detector-updated-by-inverse-call", desc)
+        if "ps" not in placed:
+            continue
+        if "fs" not in placed and ncell > 1:
             nontriv += 1
-        # the inverse call must not touch forward detectors and vice versa
-        if not np.array_equal(bw[placed["fs"].name], np.zeros_like(S)):
-            fail("field:forward-detector-updated-by-inverse-call", desc)
         # Phasor: reduced == weighted mean of spatial (same scaling mode), increment relative to the sentinel
         key_sp = "ps2" if "ps2" in placed else "ps"
         Ps = fw[placed[key_sp].name] - sent[placed[key_sp].name][0][None]
